@@ -1,5 +1,8 @@
 #![allow(dead_code)]
 mod c02;
+mod c04;
+mod voicegen;
+mod c20;
 mod eng;
 mod util;
 
@@ -15,6 +18,9 @@ fn main() {
     match a[1].as_str() {
         "c02-replay" => c02::replay(&a[2], &a[3]),
         "c02-record" => c02::record(n(2) as u64, n(3), n(4), &a[5]),
+        "c04-replay" => c04::replay(&a[2], &a[3], &a[4]),
+        "c04-record" => c04::record(n(2) as u64, n(3), &a[4]),
+        "c20-replay" => c20::replay(&a[2], &a[3]),
         other => die(&format!("unknown command {}", other)),
     }
 }
